@@ -170,6 +170,9 @@ def c03(tier, seed):
         ms.append(model("reb-b", ["S2", "G1"], ["quote", "trade", "rebal"], 5, fees="dy", dqs=(-1, 2), reqs=reqs_b, maxrebal=2, **kw))
     for m in ms:
         explore_and_replay(rep, m, clauses_of("C03"))
+    # longer random behaviours (at most two rebalances each, so that exact rationals stay within TLC's integers)
+    msim = model("reb-sim", ["S1", "F4"], ["quote", "trade", "rebal"], 4, fees="free", dqs=(-2, 1), reqs=reqs_a[:5], maxrebal=2, **kw)
+    simulate(rep, msim, clauses_of("C03"), 1000 if tier == "quick" else 10000, 8 if tier == "quick" else 10, seed)
     # the same statement one level up: targets arrive as actions of a portfolio space declared in numbers of contracts
     # (Box and Discrete menus) and must be executed in that measure and reached exactly (Env.tla, replayed into TradingEnv)
     from . import env_check, props_env
@@ -228,4 +231,7 @@ def c12(tier, seed):
                         maxrebal=2, invariants=inv, properties=props))
     for m in ms:
         explore_and_replay(rep, m, clauses_of("C12"))
+    # longer random behaviours (one history per (state, last operation) is what the dumps above replay; simulation adds other
+    # paths to the same states and deeper ones)
+    simulate(rep, ms[1], clauses_of("C12"), 1000 if tier == "quick" else 10000, 8 if tier == "quick" else 10, seed)
     return rep.finish()
